@@ -131,7 +131,9 @@ impl Monitor for C01 {
                         ));
                     }
                     self.cov.probe("exempt_tokenless");
-                    new_exempt.push(bk);
+                    // only this instruction is exempt: the rule is a per-instruction delta, so the
+                    // bank keeps being judged afterwards (a later write-off on the then un-flagged
+                    // bank is not sanctioned)
                     continue;
                 }
                 if self.exempt.contains(&bk) || new_exempt.contains(&bk) {
